@@ -3,6 +3,7 @@
   Kernels are the SAME generic definitions the driver executes at `Float`, here at partial reals (`PReal`).
   Linear / Cubic ≡ SciPy's interpolators is a differential test only (external algorithm): no theorem.
 -/
+import VerdeModel.Gen.Loops
 import VerdeModel.Lemmas.PReal
 import VerdeModel.Gen.Kernels
 import VerdeModel.Model.LinAlg
@@ -246,5 +247,88 @@ theorem gen_trend_predict_eq_model (coef : List Rat) (degree : Nat) (e n : Rat) 
   have h : Gen.trendPredict coef (powerCombinations degree) [e] [n] = (coef.zip (powerCombinations degree)).foldl (predStep e n) [0] := rfl
   rw [h, fold_point, zero_add, sum_zip_eq]
   rfl
+
+/-! ## The array code around the kernels as regenerated from the source (Gen/Loops.lean) -/
+section Loops
+open RealLike
+variable {α : Type} [RealLike α]
+
+theorem foldl_range_getD3 {β γ : Type} (F : β → γ → γ → γ → β) (d : γ) :
+    ∀ (c a b : List γ) (init : β), a.length = c.length → b.length = c.length →
+      (List.range c.length).foldl (fun acc j => F acc (a.getD j d) (b.getD j d) (c.getD j d)) init
+        = ((a.zip b).zip c).foldl (fun acc x => F acc x.1.1 x.1.2 x.2) init := by
+  intro c
+  induction c with
+  | nil => intro a b init _ _; simp
+  | cons c0 cs ih =>
+    intro a b init ha hb
+    match a, b, ha, hb with
+    | a0 :: as, b0 :: bs, ha, hb =>
+      simp only [List.length_cons, List.range_succ_eq_map, List.foldl_cons, List.foldl_map, List.getD_cons_zero, List.getD_cons_succ,
+        List.zip_cons_cons]
+      exact ih as bs _ (by simpa using ha) (by simpa using hb)
+
+theorem foldl_singleton {γ : Type} (g : γ → α) (l : List γ) (r0 : α) :
+    l.foldl (fun (acc : List α) x => List.zipWith (· + ·) acc [g x]) [r0] = [l.foldl (fun acc x => acc + g x) r0] := by
+  induction l generalizing r0 with
+  | nil => rfl
+  | cons x xs ih => simp only [List.foldl_cons, List.zipWith_cons_cons, List.zipWith_nil_right]; exact ih _
+
+/-- **Bridge.**  `jacobian_numpy` as regenerated from the source: row `i`, column `j` holds the kernel between observation `i` and force `j`. -/
+theorem gen_jacobian_numpy_eq_model (east north fe fn : List α) (mindist : α) :
+    Gen.jacobianNumpy east north fe fn mindist = splineJac (east.zip north) (fe.zip fn) mindist := rfl
+
+/-- **Bridge.**  `jacobian_2d_numpy` as regenerated from the source: the four block assignments give `[[G_ee, G_ne], [G_ne, G_nn]]`. -/
+theorem gen_jacobian_2d_numpy_eq_model (east north fe fn : List α) (mindist poisson : α) :
+    Gen.jacobian2dNumpy east north fe fn mindist poisson = vectorJac (east.zip north) (fe.zip fn) mindist poisson := rfl
+
+/-- **Bridge.**  `predict_numpy` as regenerated from the source (`result[:] = 0`, `for j in range(forces.size): result += green * forces[j]`)
+    is, at every observation point, the model's sum over the forces. -/
+theorem gen_predict_numpy_eq_model (e n : α) (fe fn forces : List α) (mindist : α)
+    (h1 : fe.length = forces.length) (h2 : fn.length = forces.length) :
+    Gen.predictNumpy [e] [n] fe fn mindist forces = splinePredict [(e, n)] (fe.zip fn) mindist forces := by
+  unfold Gen.predictNumpy splinePredict
+  simp only [List.map_cons, List.map_nil, List.zipWith_cons_cons, List.zipWith_nil_right]
+  rw [foldl_range_getD3 (fun (acc : List α) a b c => List.zipWith (· + ·) acc [Gen.greensNumpy (e - a) (n - b) mindist * c]) (lit 0)
+    forces fe fn [lit 0] h1 h2]
+  exact foldl_singleton (fun x : (α × α) × α => Gen.greensNumpy (e - x.1.1) (n - x.1.2) mindist * x.2) _ _
+
+theorem foldl_pair_singleton {γ : Type} (g1 g2 : γ → α) (l : List γ) (r1 r2 : α) :
+    l.foldl (fun (acc : List α × List α) x => (List.zipWith (· + ·) acc.1 [g1 x], List.zipWith (· + ·) acc.2 [g2 x])) ([r1], [r2])
+      = ([(l.foldl (fun (acc : α × α) x => (acc.1 + g1 x, acc.2 + g2 x)) (r1, r2)).1],
+         [(l.foldl (fun (acc : α × α) x => (acc.1 + g1 x, acc.2 + g2 x)) (r1, r2)).2]) := by
+  induction l generalizing r1 r2 with
+  | nil => rfl
+  | cons x xs ih => simp only [List.foldl_cons, List.zipWith_cons_cons, List.zipWith_nil_right]; exact ih _ _
+
+/-- **Bridge.**  `predict_2d_numpy` as regenerated from the source: the east forces are `forces[j]`, the north forces `forces[j + nforces]`,
+    `vec_east += green_ee * f_e + green_ne * f_n`, `vec_north += green_ne * f_e + green_nn * f_n`. -/
+theorem gen_predict_2d_numpy_eq_model (e n : α) (fe fn f1 f2 : List α) (mindist poisson : α)
+    (h1 : fe.length = f1.length) (h2 : fn.length = f1.length) (h3 : f2.length = f1.length) :
+    Gen.predict2dNumpy [e] [n] fe fn mindist poisson (f1 ++ f2)
+      = ((vectorPredict [(e, n)] (fe.zip fn) mindist poisson f1 f2).map (·.1), (vectorPredict [(e, n)] (fe.zip fn) mindist poisson f1 f2).map (·.2)) := by
+  unfold Gen.predict2dNumpy vectorPredict
+  have hk : (f1 ++ f2).length / 2 = f1.length := by simp [List.length_append, h3]; omega
+  simp only [hk, List.map_cons, List.map_nil, List.zipWith_cons_cons, List.zipWith_nil_right]
+  have hX : (List.range f1.length).map (fun j => ((fe.getD j (lit 0), fn.getD j (lit 0)), ((f1 ++ f2).getD j (lit 0), (f1 ++ f2).getD (j + f1.length) (lit 0))))
+      = (fe.zip fn).zip (f1.zip f2) := by
+    apply List.ext_getElem
+    · simp [h1, h2, h3]
+    · intro i hi1 hi2
+      have hi : i < f1.length := by simpa using hi1
+      have g : ∀ (l : List α) (k : Nat) (hk : k < l.length), l.getD k (lit 0) = l[k] := by
+        intro l k hk
+        rw [List.getD_eq_getElem?_getD, List.getElem?_eq_getElem hk]; rfl
+      simp only [List.getElem_map, List.getElem_range, List.getElem_zip]
+      rw [g fe i (by omega), g fn i (by omega), g (f1 ++ f2) i (by simp; omega), g (f1 ++ f2) (i + f1.length) (by simp; omega)]
+      rw [List.getElem_append_left hi, List.getElem_append_right (by omega)]
+      simp
+  let G : List α × List α → (α × α) × (α × α) → List α × List α := fun acc x =>
+      (List.zipWith (· + ·) acc.1 [((Gen.greens2d (e - x.1.1) (n - x.1.2) mindist poisson).1 * x.2.1) + ((Gen.greens2d (e - x.1.1) (n - x.1.2) mindist poisson).2.2 * x.2.2)],
+       List.zipWith (· + ·) acc.2 [((Gen.greens2d (e - x.1.1) (n - x.1.2) mindist poisson).2.2 * x.2.1) + ((Gen.greens2d (e - x.1.1) (n - x.1.2) mindist poisson).2.1 * x.2.2)])
+  calc _ = List.foldl G ([lit 0], [lit 0]) ((List.range f1.length).map (fun j => ((fe.getD j (lit 0), fn.getD j (lit 0)), ((f1 ++ f2).getD j (lit 0), (f1 ++ f2).getD (j + f1.length) (lit 0))))) :=
+        List.foldl_map.symm
+    _ = _ := by rw [hX]; exact foldl_pair_singleton _ _ _ _ _
+end Loops
 
 end Verde.C03
